@@ -391,7 +391,11 @@ fn judge(acc: &mut Acc, case: &Case, sp: &Spend, what: &str, mutation: &str, mus
 }
 
 fn mutation_class(m: &str) -> String {
-    m.split(':').next().unwrap_or(m).to_string()
+    let base = m.split(':').next().unwrap_or(m);
+    match base.find("@sig") {
+        Some(i) => format!("{}@later-signature", &base[..i]),
+        None => base.to_string(),
+    }
 }
 
 /// All single-field mutations of a signed spend.
@@ -429,20 +433,21 @@ fn mutations(sp: &Spend, ks: &Keys, form: usize, fam: &Family) -> Vec<(String, S
             s.unlocking[p] = push(&other);
         }
     })));
-    // signature mutations on the first signature
-    let sig_pos = sp.unlocking.iter().position(|t| matches!(t, Tok::Push(d) | Tok::PushData(_, d) if d.len() > 60 && d[0] == 0x30));
-    if let Some(p) = sig_pos {
+    // signature mutations on every signature position
+    let sig_positions: Vec<usize> = sp.unlocking.iter().enumerate().filter(|(_, t)| matches!(t, Tok::Push(d) | Tok::PushData(_, d) if d.len() > 60 && d[0] == 0x30)).map(|(i, _)| i).collect();
+    for (which, p) in sig_positions.iter().copied().enumerate() {
         let sig: Vec<u8> = match &sp.unlocking[p] {
             Tok::Push(d) | Tok::PushData(_, d) => d.clone(),
             _ => vec![],
         };
+        let tag = if which == 0 { String::new() } else { format!("@sig{}", which) };
         let rlen = sig[3] as usize;
-        out.push(("sig-r-bit".into(), clone(&|s| {
+        out.push((format!("sig-r-bit{}", tag), clone(&|s| {
             let mut x = sig.clone();
             x[4 + rlen - 1] ^= 0x01;
             s.unlocking[p] = push(&x);
         })));
-        out.push(("sig-s-bit".into(), clone(&|s| {
+        out.push((format!("sig-s-bit{}", tag), clone(&|s| {
             let mut x = sig.clone();
             let l = x.len();
             x[l - 2] ^= 0x01;
@@ -451,7 +456,7 @@ fn mutations(sp: &Spend, ks: &Keys, form: usize, fam: &Family) -> Vec<(String, S
         let flag = *sig.last().unwrap() as u32;
         for f in STD_FLAGS {
             if f != flag {
-                out.push((format!("flag-byte:0x{:02x}", f), clone(&|s| {
+                out.push((format!("flag-byte{}:0x{:02x}", tag, f), clone(&|s| {
                     let mut x = sig.clone();
                     let l = x.len();
                     x[l - 1] = f as u8;
@@ -459,27 +464,32 @@ fn mutations(sp: &Spend, ks: &Keys, form: usize, fam: &Family) -> Vec<(String, S
                 })));
             }
         }
-        let signer = fam.signers[0];
+        let signer = fam.signers[which.min(fam.signers.len() - 1)];
         let sub = signing_subscript(&sp.locking);
         if let Some(rev) = ref_sign(&ks.d[signer], &sp.tx, sp.idx, &sub, sp.value, flag, true) {
-            out.push(("sig-over-reversed-digest".into(), clone(&|s| s.unlocking[p] = push(&rev))));
+            out.push((format!("sig-over-reversed-digest{}", tag), clone(&|s| s.unlocking[p] = push(&rev))));
         }
         if let Some(by_other) = ref_sign(&ks.d[3], &sp.tx, sp.idx, &sub, sp.value, flag, false) {
-            out.push(("sig-by-another-key".into(), clone(&|s| s.unlocking[p] = push(&by_other))));
+            out.push((format!("sig-by-another-key{}", tag), clone(&|s| s.unlocking[p] = push(&by_other))));
         }
-        out.push(("sig-empty".into(), clone(&|s| s.unlocking[p] = Tok::Op(0))));
+        out.push((format!("sig-empty{}", tag), clone(&|s| s.unlocking[p] = Tok::Op(0))));
     }
     out
 }
 
 fn build_spend(ks: &Keys, fam: &Family, locking: Vec<Tok>, tx: RTx, idx: usize, value: u64, flag: u32) -> Option<Spend> {
+    build_spend_flags(ks, fam, locking, tx, idx, value, &[flag])
+}
+
+/// signer k uses flags[k % flags.len()]
+fn build_spend_flags(ks: &Keys, fam: &Family, locking: Vec<Tok>, tx: RTx, idx: usize, value: u64, flags: &[u32]) -> Option<Spend> {
     let sub = signing_subscript(&locking);
     let mut unlocking = vec![];
     if fam.multisig {
         unlocking.push(Tok::Op(0));
     }
-    for s in &fam.signers {
-        unlocking.push(push(&ref_sign(&ks.d[*s], &tx, idx, &sub, value, flag, false)?));
+    for (k, s) in fam.signers.iter().enumerate() {
+        unlocking.push(push(&ref_sign(&ks.d[*s], &tx, idx, &sub, value, flags[k % flags.len()], false)?));
     }
     for t in &fam.tail {
         unlocking.push(push(t));
@@ -568,6 +578,30 @@ pub fn spaces(tier: Tier) -> Vec<Space> {
             }
         }));
     }
+    // (1c) multisig where every co-signer uses a different flag byte (all ordered pairs/triples rotate through the 12 flags)
+    {
+        let fams: Vec<Family> = families(&ks, 0).into_iter().filter(|f| f.multisig && f.signers.len() >= 2 && !f.name.ends_with("VERIFY") && f.signers.windows(2).all(|w| w[0] < w[1])).collect();
+        let fams = Arc::new(fams);
+        let nf = fams.len() as u64;
+        let ks2 = ks.clone();
+        v.push(Space::new("multisig-mixed-flags", nf * 12 * 11 * 2, move |case, acc| {
+            let c = coords(case.idx, &[nf, 12, 11, 2]);
+            let fam = &fams[c[0] as usize];
+            let f1 = STD_FLAGS[c[1] as usize];
+            let f2 = STD_FLAGS[((c[1] + 1 + c[2]) % 12) as usize];
+            let (n_in, n_out, idx) = if c[3] == 0 { (1, 1, 0) } else { (2, 2, 1) };
+            let Some(sp) = build_spend_flags(&ks2, fam, fam.locking.clone(), base_tx(n_in, n_out), idx, 0x55aa, &[f1, f2]) else { return };
+            judge(acc, case, &sp, &fam.name, "co-signers-use-different-flags", true);
+        }));
+    }
+    // (1d) histories on ONE library object: sign on it (fills its sighash cache), attach the unlocking script, mutate it
+    // through the API, then interpret that same object — the verdict must follow the object's current contents
+    {
+        v.push(Space::new("api-object-history", 2 * 12 * API_MUTATIONS.len() as u64 * 2, move |case, acc| {
+            let c = coords(case.idx, &[2, 12, API_MUTATIONS.len() as u64, 2]);
+            api_history_case(acc, case, c[0] as usize, STD_FLAGS[c[1] as usize], API_MUTATIONS[c[2] as usize], c[3] as usize);
+        }));
+    }
     // (2) spends assembled and signed through the library's own API (standard forms, no separators) must be accepted
     {
         let (ks2, shapes2) = (ks.clone(), shapes.clone());
@@ -637,6 +671,111 @@ pub fn spaces(tier: Tier) -> Vec<Space> {
         }));
     }
     v
+}
+
+const API_MUTATIONS: [&str; 8] = ["none", "other-input-sequence", "other-input-vout", "own-input-sequence", "output-value", "add-output", "version", "locktime"];
+
+/// fam 0 = P2PK, 1 = P2PKH. Everything happens on one Transaction object.
+fn api_history_case(acc: &mut Acc, case: &Case, fam: usize, flag: u32, mutation: &str, idx: usize) {
+    acc.evaluations += 1;
+    acc.transitions += 5;
+    let value = 0x0000000200000003u64;
+    let model0 = base_tx(2, 2);
+    if flag & 0x1f == 3 && idx >= model0.outputs.len() {
+        return;
+    }
+    let input = json!({"family": if fam == 0 { "P2PK" } else { "P2PKH" }, "flag": format!("0x{:02x}", flag), "mutation_after_signing": mutation, "input_index": idx});
+    let other = 1 - idx;
+    let res = guard(|| -> Result<(bool, Vec<u8>, Vec<u8>), String> {
+        let es = |e: bsv::BSVErrors| e.to_string();
+        let privk = PrivateKey::from_hex(KEYS[1]).map_err(es)?;
+        let pubk = privk.to_public_key().map_err(es)?;
+        let locking = if fam == 0 { Script::from_asm_string(&format!("{} OP_CHECKSIG", pubk.to_hex().map_err(es)?)).map_err(es)? } else { P2PKHAddress::from_pubkey(&pubk).map_err(es)?.get_locking_script().map_err(es)? };
+        let mut t = Transaction::new(model0.version, model0.locktime);
+        for i in &model0.inputs {
+            t.add_input(&TxIn::new(&i.txid_display(), i.vout, &Script::default(), Some(i.sequence)));
+        }
+        for o in &model0.outputs {
+            t.add_output(&TxOut::new(o.value, &Script::from_bytes(&o.script).map_err(es)?));
+        }
+        let sighash = SigHash::try_from(flag as u8).map_err(es)?;
+        let sig = t.sign(&privk, sighash, idx, &locking, value).map_err(es)?;
+        let unlocking = if fam == 0 { Script::from_asm_string(&sig.to_hex().map_err(es)?).map_err(es)? } else { P2PKHAddress::from_pubkey(&pubk).map_err(es)?.get_unlocking_script(&pubk, &sig).map_err(es)? };
+        // attach scripts and value to the signed input (same outpoint, same sequence)
+        let mut own = t.get_input(idx).ok_or("no input")?;
+        own.set_unlocking_script(&unlocking);
+        own.set_locking_script(&locking);
+        own.set_satoshis(value);
+        t.set_input(idx, &own);
+        match mutation {
+            "other-input-sequence" => {
+                let mut o = t.get_input(other).ok_or("no input")?;
+                o.set_sequence(o.get_sequence() ^ 0x00010000);
+                t.set_input(other, &o);
+            }
+            "other-input-vout" => {
+                let mut o = t.get_input(other).ok_or("no input")?;
+                o.set_vout(o.get_vout() ^ 1);
+                t.set_input(other, &o);
+            }
+            "own-input-sequence" => {
+                let mut o = t.get_input(idx).ok_or("no input")?;
+                o.set_sequence(o.get_sequence() ^ 0x00010000);
+                t.set_input(idx, &o);
+            }
+            "output-value" => {
+                let o = t.get_output(0).ok_or("no output")?;
+                t.set_output(0, &TxOut::new(o.get_satoshis() ^ 1, &o.get_script_pub_key()));
+            }
+            "add-output" => t.add_output(&TxOut::new(9, &Script::from_bytes(&[0x51]).map_err(es)?)),
+            "version" => {
+                t.set_version(model0.version ^ 1);
+            }
+            "locktime" => {
+                t.set_nlocktime(model0.locktime ^ 0x100);
+            }
+            _ => {}
+        }
+        let ok = match Interpreter::from_transaction(&t, idx) {
+            Ok(mut it) => match it.run() {
+                Ok(()) => it.state().stack.last().map(|x| cast_to_bool(x)).unwrap_or(false),
+                Err(_) => false,
+            },
+            Err(_) => false,
+        };
+        Ok((ok, unlocking.to_bytes(), locking.to_bytes()))
+    });
+    match res {
+        Ok(Ok((lib_ok, ub, lb))) => {
+            // reference verdict on the object's final contents
+            let mut m = model0.clone();
+            match mutation {
+                "other-input-sequence" => m.inputs[other].sequence ^= 0x00010000,
+                "other-input-vout" => m.inputs[other].vout ^= 1,
+                "own-input-sequence" => m.inputs[idx].sequence ^= 0x00010000,
+                "output-value" => m.outputs[0].value ^= 1,
+                "add-output" => m.outputs.push(ROut { value: 9, script: vec![0x51] }),
+                "version" => m.version ^= 1,
+                "locktime" => m.locktime ^= 0x100,
+                _ => {}
+            }
+            let (Ok(ut), Ok(lt)) = (rs::tokenize(&ub), rs::tokenize(&lb)) else { return };
+            let want = ref_verdict(&ut, &lt, &SpendCtx { tx: &m, idx, value });
+            if want == Verdict::Open {
+                return;
+            }
+            acc.traces += 1;
+            acc.nontrivial_structural += 1;
+            acc.outcome(&[7, lib_ok as u8, (want == Verdict::Accept) as u8]);
+            if lib_ok && want == Verdict::Reject {
+                acc.violate(format!("C15/api-object-history/kind=accepts-invalid/mutation={}", mutation), case.idx, case.json(input), "the interpreter accepts the mutated object; the signature does not cover its current contents");
+            } else if !lib_ok && want == Verdict::Accept {
+                acc.violate(format!("C15/api-object-history/kind=rejects-valid/mutation={}", mutation), case.idx, case.json(input), "the interpreter rejects although the signature covers the object's current contents");
+            }
+        }
+        Ok(Err(e)) => acc.violate("C15/api-object-history/kind=cannot-assemble", case.idx, case.json(input), e),
+        Err(p) => acc.violate(format!("C15/api-object-history/kind=panic@{}", panic_site(&p)), case.idx, case.json(input), p),
+    }
 }
 
 fn run(ctx: &Ctx) -> Report {
